@@ -7,6 +7,8 @@ From Osmo Require Import Base.DecModel C13.Common C13.Sqrt C13.SqrtProofs C13.Si
   C13.BinSearch C13.BinSearchProofs C13.Exp2 C13.Exp2Real C13.Exp2Proofs
   C13.Log2 C13.Log2Proofs C13.Pow C13.PowProofs Gen.C13_consts.
 Open Scope Z_scope.
+(* one line per axiom in the Print Assumptions output, so that the check's parser sees every name *)
+Set Printing Width 4000.
 
 (* ---------- monotone square roots (integers only, axiom-free) ---------- *)
 
